@@ -106,3 +106,57 @@ func c10RunProps(c *Ctx, sh *c10Shared, thorough bool) {
 	sh.famUpdate(c, "PROP "+strconv.Itoa(len(names))+" category/script/property names x 6 spellings x "+strconv.Itoa(len(opts))+" option sets S", before, done, "")
 	c.extra["property_names"] = len(names)
 }
+
+// C10, family TRUNC: every proper prefix (cut at every byte) of every harvested corpus pattern and of every token of
+// the TOK alphabet pair — a pattern that stops in the middle of a construct is what the parser's look-ahead has to
+// survive. Compile (+ MustCompile's documented panic) under five option sets.
+func c10RunTrunc(c *Ctx, sh *c10Shared, thorough bool) {
+	seen := map[string]bool{}
+	var pats []string
+	add := func(s string) {
+		if len(s) > 0 && len(s) <= 120 && !seen[s] {
+			seen[s] = true
+			pats = append(pats, s)
+		}
+	}
+	for _, p := range corpusEverything() {
+		if len(p.Src) > 120 {
+			continue
+		}
+		for i := 1; i < len(p.Src); i++ {
+			add(p.Src[:i])
+		}
+	}
+	for _, a := range c10Tokens {
+		for _, b := range c10Tokens {
+			t := a + b
+			for i := 1; i <= len(t); i++ {
+				add(t[:i])
+			}
+		}
+	}
+	sort.Strings(pats)
+	opts := []optSet{"", "2", "E", "x", "R"}
+	if thorough {
+		opts = append(opts, "i", "n", "U", "EU", "G")
+	}
+	type item struct {
+		pat string
+		o   optSet
+	}
+	items := make([]item, 0, len(pats)*len(opts))
+	for _, p := range pats {
+		for _, o := range opts {
+			items = append(items, item{p, o})
+		}
+	}
+	before := sh.snapshot()
+	done := c.parallel(len(items), func(i int) {
+		for _, v := range c10One(sh, items[i].pat, items[i].o, c10LvlS, []string{"", "a"}, nil, 0) {
+			c10Report(c, v)
+		}
+	}, func(i int, r any) {
+		c10Report(c, Violation{Leg: "panic:harness", Key: c10Key("panic:harness", items[i].o, items[i].pat), Pattern: items[i].pat, Options: string(items[i].o), Detail: panicText(r)})
+	})
+	sh.famUpdate(c, "TRUNC "+strconv.Itoa(len(pats))+" truncated patterns x "+strconv.Itoa(len(opts))+" option sets S", before, done, "")
+}
